@@ -107,6 +107,10 @@ func genBeh(t *rapid.T) Beh {
 		bk := delayBuckets[rapid.IntRange(0, len(delayBuckets)-1).Draw(t, "bucket")]
 		b.DelayMs = rapid.IntRange(bk[0], bk[1]).Draw(t, "delay")
 	}
+	if b.Kind == behSCT {
+		// the log's clock relative to ours when it stamps the SCT: exact, behind, or ahead
+		b.SkewS = rapid.SampledFrom([]int{0, 0, 0, 0, -3600, -301, -1, 1, 299, 301, 900, 3600}).Draw(t, "skew")
+	}
 	return b
 }
 
@@ -193,7 +197,7 @@ func collect(scts []*submission.AssignedSCT) []SCTOut {
 		}
 		o := SCTOut{URL: a.LogURL, Nil: a.SCT == nil}
 		if a.SCT != nil {
-			o.Stamp = a.SCT.Timestamp
+			o.Stamp = stampOf(a.SCT)
 		}
 		out = append(out, o)
 	}
